@@ -54,7 +54,8 @@ def gen_direct(parts, variant=None):
         pools.append({"name": f"P{p}", "workers": ws})
     graphs = []
     for g in range(rng.randint(1, 3)):
-        kind = rng.choice(["stream", "stream", "dag", "dagrel"] if variant != "planner" else ["dag", "dagrel", "dagrel"])
+        kind = rng.choice(["stream", "stream", "dag", "dagrel"] if variant not in ("planner", "loader") else
+                          (["dag", "dagrel", "dagrel"] if variant == "planner" else ["dag"]))
         njobs = rng.randint(1, 3) if kind == "stream" else rng.randint(2, 5)
         nts = rng.randint(2, 3) if kind == "stream" else 1
         jobs = [f"J{g}{j}" for j in range(njobs)]
@@ -62,6 +63,9 @@ def gen_direct(parts, variant=None):
         jedges = [(jobs[a], jobs[b]) for a in range(njobs) for b in range(a + 1, njobs) if rng.random() < 0.45]
         tasks, edges = [], []
         base_release = rng.randint(0, 6)
+        if variant == "loader":
+            # graphs arrive over time through a streaming workload loader, with quiet windows before and between arrivals
+            base_release += rng.choice([0, 0, 25, 60, 110]) if g > 0 or rng.random() < 0.5 else 0
         for j in jobs:
             nstrat = rng.randint(1, 2)
             strategies = [({n: rng.randint(1, 2) for n in rng.sample(res_names, rng.randint(1, len(res_names)))},
@@ -74,7 +78,12 @@ def gen_direct(parts, variant=None):
                 elif kind == "dagrel" and rng.random() < 0.6:
                     # a task below a parent that also carries its own (known) release time: it may not start before it
                     rel = base_release + rng.randint(1, 25)
-                tasks.append({"job": j, "ts": ts, "strategies": strategies, "release": rel, "deadline": rng.randint(30, 200)})
+                deadline = rng.randint(30, 200)
+                if variant == "planner" and rng.random() < 0.6:
+                    # deadlines that bind: around (known or earliest possible) release + runtime
+                    slow = max(rt for _, rt in strategies)
+                    deadline = max(rel, base_release) + rng.choice([slow, slow, slow + 1, slow + 3, 2 * slow + 4, 15])
+                tasks.append({"job": j, "ts": ts, "strategies": strategies, "release": rel, "deadline": deadline})
         for a, b in jedges:
             for ts in range(nts):
                 edges.append(((a, ts), (b, ts)))
@@ -105,13 +114,33 @@ def gen_direct(parts, variant=None):
             if t["job"] not in bs:
                 bs[t["job"]] = rng.choice([1, 1, 2, 3])
             t["batch_size"] = bs[t["job"]]
-    return {"pools": pools, "graphs": graphs, "policy": policy, "frequency": rng.choice([-1, -1, 1, 4]), "timeout": rng.choice([120, 200, 400]),
-            "res_names": res_names}
+    world = {"pools": pools, "graphs": graphs, "policy": policy, "frequency": rng.choice([-1, -1, 1, 4]), "timeout": rng.choice([120, 200, 400]),
+             "res_names": res_names}
+    if variant == "loader":
+        world["loader"] = {"interval": rng.choice([-1, 10, 40])}
+        world["timeout"] = 600
+    return world
+
+
+class _TaskView:
+    """what the decision hooks written for the e2e runs read through ctx.tasks: starts and the standing decision"""
+
+    def __init__(self, ctx):
+        self.ctx = ctx
+
+    def get(self, tid, default=None):
+        r = self.ctx.rec.get(tid)
+        if r is None:
+            return default
+        pd = self.ctx.policy_decision.get(tid)
+        return {"starts": r["starts"], "applied": pd if (pd is not None and pd.is_placed()) else None}
 
 
 class Ctx:
     def __init__(self, world):
         self.world = world
+        self.opts = {}
+        self.tasks = _TaskView(self)
         self.viol = []
         self.counters = {}
         self.clock = 0
@@ -649,8 +678,9 @@ def _shadow_invocations(ctx, sim_time, workload, worker_pools, policy, rng):
                                                                         policy=type(pol).__name__, greedy=(kind == "greedy")))
             if call.get("input_infeasible"):
                 ctx.count("shadow_calls_input_infeasible")
-            for hook in ctx.decision_hooks:
-                hook(ctx, call, pol, pls, sim_time, workload, worker_pools)
+            call["placements"] = pls
+            for hook in ctx.decision_hooks:  # same signature as the decision hooks of the e2e runs (C11, C12)
+                hook(ctx, call, pol, sim_time, workload, worker_pools)
     finally:
         ctx.shadow_call = None
         random.setstate(rstate)
@@ -739,6 +769,33 @@ def run_direct(world, wall_s=30, shadow=False, decision_hooks=()):
                 return None
             self._done = True
             return workload
+    stream = None
+    if world.get("loader"):
+        # a streaming loader in the manner of data/alibaba_loader.py: every update returns the accumulated Workload with the
+        # graphs whose first release falls before the next update added to it, None once everything has been handed over and
+        # an update finds nothing new.  A window without arrivals returns the (possibly still empty) Workload again.
+        interval = world["loader"]["interval"]
+        arrival = {g["name"]: min(t["release"] for t in g["tasks"] if t["release"] >= 0) for g in world["graphs"]}
+
+        class Stream(BaseWorkloadLoader):
+            def __init__(self):
+                self.acc = wl.Workload.from_task_graphs({})
+                self.pending = sorted(arrival, key=lambda n: arrival[n])
+
+            def get_next_workload(self, current_time):
+                horizon = current_time.time + (interval if interval > 0 else 0)
+                new = [n for n in self.pending if arrival[n] <= horizon]
+                if not self.pending:
+                    return None
+                ctx.count("loader_updates")
+                if not new:
+                    ctx.count("loader_quiet_windows")
+                for n in new:
+                    self.acc.add_task_graph(tgs[n])
+                    self.pending.remove(n)
+                    ctx.count("loader_graphs_handed_over")
+                return self.acc
+        stream = Stream()
     sched = _make_chaos(world["policy"], world["pools"])
     status, exc = "ended", None
     t0 = _time.time()
@@ -749,9 +806,16 @@ def run_direct(world, wall_s=30, shadow=False, decision_hooks=()):
     signal.alarm(wall_s)
     _CTX = ctx
     try:
-        sim = Simulator(worker_pools=wk.WorkerPools(pools), scheduler=sched, workload_loader=OneShot(), loop_timeout=us(world["timeout"]),
-                        scheduler_frequency=us(world["frequency"]))
+        sim = Simulator(worker_pools=wk.WorkerPools(pools), scheduler=sched, workload_loader=stream or OneShot(),
+                        loop_timeout=us(world["timeout"]), scheduler_frequency=us(world["frequency"]))
+        if stream is not None and world["loader"]["interval"] > 0:
+            # what --workload_update_interval sets (the constructor only reads it from absl flags)
+            sim._workload_update_interval = us(world["loader"]["interval"])
         sim.simulate()
+        if stream is not None and ctx.ended and ctx.end_time is not None and ctx.end_time < world["timeout"] and stream.pending:
+            ctx.violate("C05", "ended_before_workload_arrived",
+                        f"ended at {ctx.end_time} < timeout {world['timeout']} while the loader still held {stream.pending} "
+                        f"(first releases { {n: arrival[n] for n in stream.pending} })")
         if not ctx.ended:
             status = "no_end_event"
     except Watchdog as e:
